@@ -139,6 +139,17 @@ func main() {
 			fmt.Fprintf(w, "%s %s %s %s %s => %s\n", c.Prop, f[1], c.Ver, c.Op,
 				strings.Join(c.Args, " "), strings.Join(obs, " "))
 		}
+	case "apinames":
+		for _, v := range allVers {
+			var names []string
+			for n := range apiTables[v] {
+				names = append(names, n)
+			}
+			sort.Strings(names)
+			for _, n := range names {
+				fmt.Println(v, n)
+			}
+		}
 	case "props":
 		var ps []string
 		for p := range generators {
